@@ -82,7 +82,8 @@ def main():
             elif cl is not None and cl[0] == "optimal":
                 # completeness: an LP with a finite optimum must be solved to OPTIMAL
                 sig = "not-solved:%s:%s" % (st, "+".join(sorted("%s=%s" % (a, b) for a, b in cfg.items() if a in ("pricer", "ratiotester", "starter", "factor_update_type", "representation", "algorithm"))) or "default")
-                ck.violation("not-solved:%s:%s" % (st, "+".join(t for t in tags if t == "polish") or "plain"), "LP with certified finite optimum %s was not solved to OPTIMAL (status %s, %s iterations) under %s" % (
+                ck.violation("not-solved:%s:%s:starter=%s:simplifier=%s" % (st, "+".join(t for t in tags if t == "polish") or "plain", cfg.get("starter", 0),
+                                                                          "off" if cfg.get("simplifier", 3) == 0 else "on"), "LP with certified finite optimum %s was not solved to OPTIMAL (status %s, %s iterations) under %s" % (
                     float(cl[1]), st, ru.get("iters"), cfg), sc.replay_of(p, cfg, ru, {"certified_optimum": lpgen.qs(cl[1]), "detail": sig}))
         if k < 2:
             ck.sample({"lp": p.text(str(k)), "class": (cl[0] if cl else None), "configs": cfgs[k][:2],
